@@ -5580,6 +5580,16 @@ where
         self.insertion_state.last_inserted_cell = None;
         self.spatial_index = None;
     }
+
+    /// Drops the insertion-time caches after an Edit-API flip that succeeded.
+    ///
+    /// A refused flip is rolled back to the identical `Tds` (same keys), so the caches still
+    /// describe it and are left alone: a failed flip must not influence later insertions.
+    pub(crate) fn invalidate_insertion_caches_after_flip<R, E>(&mut self, result: &Result<R, E>) {
+        if result.is_ok() {
+            self.invalidate_insertion_caches();
+        }
+    }
 }
 
 // Custom Serialize implementation that only serializes the Tds
